@@ -86,6 +86,7 @@ def profile(prop):
         p["dup_add"] = 0.2
         p["ops"].update(set=8, read_w=3, read_obs=2)
         p["n_choices"] = [14, 2, 3, 5, 9]
+        p["files"] = [1, 1, 2, 2]
     elif prop == "C12":
         p["between"].update(scribble=3)
         p["init"].update(foreign_garbage=5, capture=0.12)
@@ -460,7 +461,26 @@ class Gen:
                         o["fresh"] = True
             elif kind == "w":
                 away = False
+                # a second file is open at the same time: its object is used alternately with this one
+                other = None
+                cands = [g for g in files if g != f]
+                if cands and rng.random() < self.p.get("dual", 0.5):
+                    other = rng.choice(cands)
+                    other_w = rng.random() < 0.6
+                    if other_w:
+                        self.emit(op="allow_write", f=other)
+                    self.emit(op="enter", f=other)
+                    nops += 2
                 for _ in range(nops):
+                    if other is not None and rng.random() < 0.5:
+                        r = rng.random()
+                        if other_w and r < 0.7:
+                            self.mutation(other, rng.choice(("add", "add", "remove", "replace", "set")))
+                        elif r < 0.85:
+                            self.emit(op="read", f=other, who="writer", what=self.some_readers())
+                        else:
+                            self.emit(op="read", f=other, who="observer", ctx=rng.random() < 0.5, what=self.some_readers())
+                        continue
                     if not away and rng.random() < self.p.get("chdir", 0.06):
                         # the program changes directory in the middle of the session
                         self.emit(op="chdir", to="away")
@@ -499,6 +519,9 @@ class Gen:
                         self.present = saved  # refused: nothing changes
                     else:
                         self.emit(op="read", f=f, who="writer", what=self.some_readers())
+            if kind == "w" and other is not None and (not in_ctx or rng.random() < 0.5):
+                self.emit(op="exit_exc" if rng.random() < 0.2 else "exit", f=other)  # the other one is closed first
+                other = None
             if in_ctx:
                 end = wchoice(rng, self.p["end"])
                 if end == "exit":
@@ -509,6 +532,8 @@ class Gen:
                     self.emit(op="kill_reopen", f=f)
                 if kind == "w" and chdir_back_after_end:
                     self.emit(op="chdir", to="back")
+                if kind == "w" and other is not None:
+                    self.emit(op="exit_exc" if rng.random() < 0.2 else "exit", f=other)
             elif kind == "armed_out" and rng.random() < 0.5:
                 # the ambiguous sequence of DESIGN §C08 is generated only in the C08 profile
                 pass
